@@ -60,13 +60,22 @@ func (d *Data) isEntity(def *ast.Definition) bool {
 }
 
 func (d *Data) atRoot(base string) bool {
-	if i := strings.Index(base, "("); i >= 0 {
-		base = base[:i]
+	// base = <parent identity>/<field>[(<canonical args>)]; root fields have the identity Query / Mutation / Subscription...
+	// ("Query/top(n:4)" is at the root, "Query/top(n:4)[3]/moons" and "Query/top(n:4)[3]/moons(x:1)" are not)
+	for _, root := range []string{"Query/", "Mutation/", "Subscription"} {
+		if !strings.HasPrefix(base, root) {
+			continue
+		}
+		rest := base[strings.Index(base, "/")+1:]
+		if k := strings.Index(rest, "("); k >= 0 {
+			if !strings.HasSuffix(rest, ")") || strings.Contains(rest[k:], ")[") || strings.Contains(rest[k:], ")/") {
+				return false
+			}
+			rest = rest[:k]
+		}
+		return !strings.ContainsAny(rest, "/[")
 	}
-	if strings.Count(base, "/") != 1 || strings.Contains(base, "[") {
-		return false
-	}
-	return strings.HasPrefix(base, "Query/") || strings.HasPrefix(base, "Mutation/") || strings.HasPrefix(base, "Subscription")
+	return false
 }
 
 // MakeID renders entity id n of type t.
